@@ -187,7 +187,7 @@ def eval_word(ev: zeval.Evaluator, w) -> int:
     return v
 
 
-def compare_end_state(cov: Covering, rec: dict) -> str | None:
+def compare_end_state(cov: Covering, rec: dict, initial_addrs: set | None = None) -> str | None:
     """None if the path's reported end state equals the reference record, else the failing clause."""
     p, ev = cov.path, cov.ev
     want_err = KIND2ERR.get(rec["kind"], "?")
@@ -203,9 +203,16 @@ def compare_end_state(cov: Covering, rec: dict) -> str | None:
     if ok:
         if len(p.logs) != len(rec["logs"]):
             return f"logs: reference {len(rec['logs'])}, halmos {len(p.logs)}"
+        fwd, bwd = {}, {}
         for i, ((a, topics, d), lr) in enumerate(zip(p.logs, rec["logs"])):
-            if eval_word(ev, a) != unword(lr["addr"]):
-                return f"log {i} address"
+            ha, ra = eval_word(ev, a), unword(lr["addr"])
+            if ha != ra:
+                # accounts created during the execution are compared up to the bijection given by
+                # creation (halmos numbers CREATE2 addresses, the EVM hashes: assumption A3)
+                if initial_addrs is None or ha in initial_addrs or ra in initial_addrs:
+                    return f"log {i} address"
+                if fwd.setdefault(ra, ha) != ha or bwd.setdefault(ha, ra) != ra:
+                    return f"log {i} address (created-account renaming is not a bijection)"
             if [eval_word(ev, t) for t in topics] != [unword(t) for t in lr["topics"]]:
                 return f"log {i} topics"
             if eval_bytes(ev, d) != bytes(lr["data"]):
